@@ -376,6 +376,15 @@ class Program:
             cands = [f for f in self.by_last.get(meth, []) if "{closure" not in f.name]
             cands = [f for f in cands if self.impl_info(f) == (trait, ty)]
             return cands[0] if len(cands) == 1 else None
+        mi = re.search(r"(?:^|::)<impl (.+)>::(\w+)$", c)
+        if mi and " as " not in mi.group(1):
+            ty, meth0 = type_base(mi.group(1)), mi.group(2)
+            cands = [f for f in self.by_last.get(meth0, []) if "{closure" not in f.name and self.impl_info(f)[1] == ty]
+            inh = [f for f in cands if self.impl_info(f)[0] is None]
+            if len(inh) == 1:
+                return inh[0]
+            if len(cands) == 1:
+                return cands[0]
         s = strip_generics(c)
         parts = [p for p in s.split("::") if p]
         if not parts:
